@@ -354,6 +354,19 @@ func (vc *VC) preRegister(fn *ssa.Function) {
 
 // checkFrame proves that everything outside the modifies clause is unchanged at exit.
 func (vc *VC) checkFrame(fr *Frame, exit, entry *State, con *Contract, env *SpecEnv) {
+	if con.Options["frame"] == "assumed" {
+		// the modifies clause is what callers rely on; it is not checked against the body (the body calls code
+		// outside the verifier's reach, e.g. curve arithmetic on local buffers) and is reported as an assumption
+		var ms []string
+		for _, m := range con.Modifies {
+			ms = append(ms, m.String())
+		}
+		if len(ms) == 0 {
+			ms = []string{"nothing"}
+		}
+		vc.trusted[funcKey(fr.fn)+" modifies "+strings.Join(ms, ", ")+" (frame assumed, not proved)"] = true
+		return
+	}
 	// allowed targets, evaluated in the entry state
 	pre := *env
 	pre.st = entry
